@@ -240,6 +240,8 @@ def _subclass(cls, t):
         return issubclass(cls, table[n])
     if t[0] in ("Union", "Or"):
         return _any([_subclass(cls, t[1]), _subclass(cls, t[2])])
+    if t[0] == "Optional":
+        return _any([_subclass(cls, t[1]), cls is type(None)])
     # a parameterised generic under Type[...]: the subclass relation is with the underlying class (the element
     # types cannot be judged for a class)
     origin = {"List": list, "list": list, "Set": set, "set": set, "Dict": dict, "dict": dict, "TupleVar": tuple, "tuplevar": tuple,
@@ -424,6 +426,14 @@ def values_for(t):
         vals += failing(t)
     except Exception:
         pass
+    if t[0] in ("Tuple2", "tuple2"):
+        # the SAME mutable container at both positions: each position is judged against its own declared type
+        try:
+            for a in good(t[1]) + good(t[2]):
+                if isinstance(a, (list, set, dict)):
+                    vals.append((a, a))
+        except Exception:
+            pass
     return vals
 
 
@@ -437,6 +447,9 @@ def type_arg_terms():
     # parameterised generics (issubclass itself refuses them)
     out += [["List", ["atom", "int"]], ["list", ["atom", "str"]], ["Dict", ["atom", "str"], ["atom", "int"]], ["TupleVar", ["atom", "int"]],
             ["set", ["atom", "int"]], ["tuple2", ["atom", "int"], ["atom", "str"]]]
+    # ... also as alternatives of a union, and Any as an alternative
+    out += [["Union", ["List", ["atom", "int"]], ["atom", "str"]], ["Optional", ["List", ["atom", "int"]]], ["Or", ["list", ["atom", "int"]], ["atom", "str"]],
+            ["Union", ["atom", "Any"], ["atom", "str"]], ["Optional", ["atom", "int"]]]
     return out
 
 
@@ -487,6 +500,9 @@ def enumerate_terms(tier):
                        ["Dict", ["atom", "str"], ["atom", "int"]], ["atom", "int_ge0"], ["atom", "Lit1a"], ["atom", "float"]]
         d2_bin = [[c, a, b] for c in BINARY for a in fam for b in fam if a[0] != "atom" or b[0] != "atom"]
         terms.append(("d2_binary_small_family", d2_bin))
+    lf, li, sf, si = ["List", ["atom", "float"]], ["List", ["atom", "int"]], ["Set", ["atom", "float"]], ["Set", ["atom", "int"]]
+    terms.append(("same_container_at_two_positions", [["Tuple2", lf, li], ["Tuple2", li, lf], ["tuple2", sf, si], ["Tuple2", ["Dict", ["atom", "str"], ["atom", "float"]], ["Dict", ["atom", "str"], ["atom", "int"]]],
+                                                      ["List", ["Tuple2", lf, li]], ["Optional", ["Tuple2", lf, li]]]))
     return terms
 
 
@@ -535,6 +551,10 @@ def check_pair(t, T, v, vi, out, C, after=None):
 
 
 def run_case(case):
+    if case.get("part") == "raising_predicate":
+        probs = raising_predicate_case(tuple(case["sequence"]))
+        return [violation(PROP, {"kind": "verdict_depends_on_an_aborted_check", "part": "raising_predicate", "length": len(case["sequence"])},
+                          {"problems": probs[:3], "sequence": list(case["sequence"])}, case)] if probs else []
     t = case["term"]
     T = materialize(t)
     vals = values_for(t)
@@ -595,6 +615,66 @@ def work(chunk):
     return C.rec
 
 
+# ------------------------------------------------------------------------------------------------
+# histories with a user predicate that raises: the verdict for an object never depends on an earlier, aborted check
+# ------------------------------------------------------------------------------------------------
+def raising_predicate_case(seq):
+    """seq over {"check_incomplete" (the predicate raises KeyError), "amend_bad", "amend_good", "check"}"""
+    from typing import Dict, List, Optional, Union
+
+    from spec_classes.types import validated
+    from spec_classes.utils.type_checking import check_type
+
+    ok = validated(lambda d: d["ok"] is True, name="ok_record")   # raises KeyError for a record without the key
+    wrappers = {"bare": ok, "optional": Optional[ok], "list": List[ok], "dict_union": Dict[str, Union[ok, int]]}
+    wrap = {"bare": lambda o: o, "optional": lambda o: o, "list": lambda o: [o], "dict_union": lambda o: {"k": o}}
+    probs = []
+    for wname, T in wrappers.items():
+        obj = {}
+        for i, op in enumerate(seq):
+            if op == "amend_bad":
+                obj["ok"] = False
+            elif op == "amend_good":
+                obj["ok"] = True
+            else:
+                try:
+                    got = check_type(wrap[wname](obj), T)
+                except KeyError:
+                    got = "KeyError"
+                want = "KeyError" if "ok" not in obj else (obj["ok"] is True)
+                if got != want and not (got is not want and bool(got) == want and want != "KeyError" and got != "KeyError"):
+                    probs.append(f"{wname}: step {i} check of {obj!r} gave {got!r}, expected {want!r}")
+    return probs
+
+
+def raising_predicate_worker(task):
+    C = Counter()
+    ops = ["check", "amend_bad", "amend_good"]
+    for r in (1, 2, 3, 4):
+        for seq in itertools.product(ops, repeat=r):
+            if "check" not in seq:
+                continue
+            probs = raising_predicate_case(seq)
+            C.inc("states")
+            C.inc("transitions", 4 * len(seq))
+            C.inc("evaluations")
+            if probs:
+                C.viol(violation(PROP, {"kind": "verdict_depends_on_an_aborted_check", "part": "raising_predicate", "length": len(seq)},
+                                 {"problems": probs[:3], "sequence": list(seq)}, {"part": "raising_predicate", "sequence": list(seq)}))
+            else:
+                C.inc("traces_validated_against_impl")
+                C.nontrivial(("rp", seq))
+    C.sample({"part": "raising_predicate", "ops": ops})
+    C.rec["extra"]["families"] = {"raising_predicate_histories": 1}
+    return C.rec
+
+
+def dispatch(chunk):
+    if isinstance(chunk, dict) and chunk.get("part") == "raising_predicate":
+        return raising_predicate_worker(chunk)
+    return work(chunk)
+
+
 def main(run):
     fams = enumerate_terms(run.tier)
     chunks = []
@@ -602,7 +682,8 @@ def main(run):
         n = 400
         for i in range(0, len(terms), n):
             chunks.append((name, terms[i : i + n]))
-    for rec in pmap(work, chunks):
+    chunks.append({"part": "raising_predicate"})
+    for rec in pmap(dispatch, chunks):
         run.merge(rec)
     run.add(
         rule=(
